@@ -2,6 +2,8 @@
    the forked child is the child's store, for every value without an undefined inside. *)
 From Coq Require Import List String Bool NArith.
 From RashV Require Import JsonVal Become.
+Import ListNotations.
+Open Scope N_scope.
 
 Theorem C15_store_roundtrip : forall v, stable v = true -> of_json (to_json v) = v.
 Proof. exact roundtrip. Qed.
@@ -37,3 +39,11 @@ Proof. exact unknown_user_fails. Qed.
 (* command line and task keywords: `--become` applies to every task; a task's own become_user wins over `-u` *)
 Theorem C15_task_become_user_wins_over_the_command_line : forall g u, effective_user g (Some u) = u.
 Proof. exact task_user_wins. Qed.
+
+(* "the main rash process keeps its own credentials afterwards" fails on the transfer_pid path: K32 *)
+Theorem C15_main_credentials_lost_on_handover_refuted_K32 :
+  let db := [ {| u_name := "root"%string; u_uid := 0; u_gid := 0 |}; {| u_name := "nobody"%string; u_uid := 65534; u_gid := 65534 |} ] in
+  let cur := {| c_uid := 0; c_gid := 0 |} in
+  let p := {| b_become := true; b_user := "nobody"%string; b_is_command := true; b_transfer_pid := true |} in
+  path_of db cur p = DropThenExec /\ main_creds_after db cur p = {| c_uid := 65534; c_gid := 65534 |} /\ main_creds_after db cur p <> cur.
+Proof. exact main_credentials_lost_on_handover_refuted_K32. Qed.
